@@ -346,6 +346,7 @@ def trees(tier):
     d3 = [s for s in S.D3() if s["t"] in S.COLL or s["v"]["t"] in S.COLL or s["t"] in ("Bin", "Fraction", "Select",
                                                                                       "CentrallyBin")]
     t += d3 if tier != "quick" else d3[::6]
+    t += [x for x in S.DX() if not any(n.get("qk") for _, _, n in S.node_ids(x))]
     seen, out = set(), []
     for s in t:
         k = S.key(s)
